@@ -106,7 +106,7 @@ impl Property for C13Prop {
     }
 
     fn required_probes(&self) -> Vec<&'static str> {
-        vec!["send_while_busy", "senders_interleaved", "internal_event_while_external_queued", "timer_delivery", "sibling_delivery", "session_ended_with_queued", "stale_invoke_event_filtered"]
+        vec!["send_while_busy", "senders_interleaved", "internal_event_while_external_queued", "timer_delivery", "sibling_delivery", "session_ended_with_queued", "stale_invoke_event_filtered", "equally_named_events"]
     }
 
     fn assumptions(&self) -> Vec<String> {
@@ -162,6 +162,19 @@ impl Property for C13Prop {
                     producers[p].insert(at, st);
                 }
             }
+        }
+        // equally named events: a producer sends the same event name several times (identity cannot come from
+        // the name; a platform must not "debounce" or coalesce them)
+        if rng.chance(1, 3) {
+            let p = rng.below(producers.len() as u64) as usize;
+            for _ in 0..rng.range(2, 5) {
+                let at = rng.below(producers[p].len() as u64 + 1) as usize;
+                producers[p].insert(at, PStep::Send { sess: 0, ev: EvSpec::simple("same") });
+            }
+            // two in a row somewhere
+            let at = rng.below(producers[p].len() as u64 + 1) as usize;
+            producers[p].insert(at, PStep::Send { sess: 0, ev: EvSpec::simple("same") });
+            producers[p].insert(at, PStep::Send { sess: 0, ev: EvSpec::simple("same") });
         }
         let np = producers.len();
         // heavy events
@@ -368,16 +381,26 @@ impl Property for C13Prop {
         let stop_bracket_seq: Option<u64> = brackets.iter().find(|b| b.name == "stop" || b.name == CANCEL).map(|b| b.start_seq);
         let mut per_sender: BTreeMap<usize, Vec<(u64, String)>> = BTreeMap::new();
         for (_seq, task, ev_id, ev) in &sends {
-            if ev_name(ev).starts_with("ghost.") {
-                continue; // stale events are ignored by the platform, they take no part in the order
+            if ev_name(ev).starts_with("ghost.") || ev_name(ev) == "same" {
+                continue; // stale events are ignored by the platform; equally named events are judged by count
             }
             per_sender.entry(*task).or_default().push((*ev_id, ev_name(ev).to_string()));
         }
+        let mut same_sent = 0usize;
+        let mut same_received = 0usize;
         for (_seq, _task, ev_id, ev) in &sends {
             let name = ev_name(ev).to_string();
             verdict.evaluations += 1;
             let received = recvs.contains_key(ev_id);
             if name == CANCEL || name == "ping" {
+                continue;
+            }
+            if name == "same" {
+                // several events of one sender with one and the same name: judged by count below
+                same_sent += 1;
+                if received {
+                    same_received += 1;
+                }
                 continue;
             }
             if name.starts_with("ghost.") {
@@ -421,6 +444,17 @@ impl Property for C13Prop {
                         verdict.other_rules.push("C07.event-after-end".into());
                     }
                 }
+            }
+        }
+
+        // --- equally named events: as many processed as were dequeued (all of them if the session kept running)
+        if same_sent > 0 {
+            probes.hit("equally_named_events");
+            let done = processed.get("same").copied().unwrap_or(0);
+            verdict.evaluations += 1;
+            if done > same_received || (!stopped && done < same_sent) {
+                let (rule, sig) = if done > same_received { ("C13.duplicated", "same-name-count:more") } else { ("C13.lost", "same-name-count:less") };
+                vio.push(viol("C13", rule, format!("{} events named 'same' were sent ({} dequeued), {} were processed", same_sent, same_received, done), sig.into()));
             }
         }
 
